@@ -7,7 +7,7 @@ import NflowsModel.Lemmas.CachePaths
 (`F.linear(x, weight(), bias)` / `F.linear(x − bias, weight_inverse())` with the matrices the cache holds) computes the same VALUES as
 `forward_no_cache` / `inverse_no_cache` (two triangular products / two triangular solves, Householder products, …) was an
 assumption (external audit, C10 finding 1).  Here it is a theorem about the executed linear-family model over the reals, for every
-parameter value: LU, QR, SVD, the 1×1 convolution; for `NaiveLinear` by specification of one Gauss–Jordan elimination (which also
+parameter value: LU, QR, SVD, the 1×1 convolution; for `NaiveLinear` by specification of one Gauss–Jordan elimination — discharged since in `Properties/C11G.lean` — (which also
 pins the combined routine `weight_inverse_and_logabsdet` to the separate accessors — the "minus log-det" mutant is excluded);
 `current_version_denotes_current_value` composes the version-level theorem with this into agreement in value.  Bitwise agreement in
 floats is false (different operation order) and stays with the lock-step histories.
